@@ -394,7 +394,44 @@ pub fn cmd_merge(r: &mut Runner, t: &[&str]) -> String {
     let fd = t[3];
     let threads = t[4];
     let seed = t[5];
-    let rows = parse_kvs(t.get(6).copied().unwrap_or(""));
+    let file_rows = parse_kvs(t.get(6).copied().unwrap_or(""));
+    // optional `rep:<k>:<n>`: the first k rows are one input file whose path is given
+    // n more times at the end of the argument list (a file listed twice counts twice)
+    // further options, comma separated: `one` = a single input file, `nonl` / `keepnl` = that
+    // file's last line is not / is terminated (otherwise decided by a hash of the case)
+    let opts: Vec<&str> = t.get(7).map(|x| x.split(',').collect()).unwrap_or_default();
+    let rep: Option<(usize, usize)> = opts.iter().find_map(|x| {
+        let p: Vec<&str> = x.split(':').collect();
+        if p.len() == 3 && p[0] == "rep" {
+            Some((p[1].parse().ok()?, p[2].parse().ok()?))
+        } else {
+            None
+        }
+    });
+    let one = opts.contains(&"one");
+    let nonl: Option<bool> = if opts.contains(&"nonl") { Some(true) } else if opts.contains(&"keepnl") { Some(false) } else { None };
+    // what the rows mean: a line of a `fst set` input ends at `\n` or `\r\n`, so a line
+    // whose content ends in CR loses ONE CR (bstr's line reader); then repeated files
+    // (an unterminated last line keeps its CR: only `\r\n` is a terminator)
+    let nrows_in = file_rows.len();
+    let mut rows: Kv = file_rows
+        .iter()
+        .enumerate()
+        .map(|(i, (k, v))| {
+            let mut k = k.clone();
+            let unterminated = one && nonl == Some(true) && i + 1 == nrows_in;
+            if mode == "set" && k.last() == Some(&b'\r') && !unterminated {
+                k.pop();
+            }
+            (k, *v)
+        })
+        .collect();
+    if let Some((k, n)) = rep {
+        let first: Kv = rows.iter().take(k).cloned().collect();
+        for _ in 0..n {
+            rows.extend(first.iter().cloned());
+        }
+    }
     let bin = std::env::var("FST_BIN").expect("FST_BIN");
     let dir = std::env::var("FST_TMP").unwrap_or_else(|_| "/verif/target/tmp".into());
     std::fs::create_dir_all(&dir).unwrap();
@@ -404,33 +441,41 @@ pub fn cmd_merge(r: &mut Runner, t: &[&str]) -> String {
     // concatenation is the row list); with several files an EMPTY file is put
     // in between (not last)
     let salt = fnv64(t.join(" ").as_bytes());
-    let nfiles = 1 + (salt % 3) as usize;
+    let nfiles = if rep.is_some() { 2 } else if one { 1 } else { 1 + (salt % 3) as usize };
     let mut chunks: Vec<Vec<(Vec<u8>, u64)>> = vec![vec![]; nfiles];
-    let per = (rows.len() + nfiles - 1) / nfiles.max(1);
-    for (i, row) in rows.iter().enumerate() {
-        chunks[(i / per.max(1)).min(nfiles - 1)].push(row.clone());
+    let per = (file_rows.len() + nfiles - 1) / nfiles.max(1);
+    for (i, row) in file_rows.iter().enumerate() {
+        let c = match rep {
+            Some((k, _)) => if i < k { 0 } else { 1 },
+            None => (i / per.max(1)).min(nfiles - 1),
+        };
+        chunks[c].push(row.clone());
     }
-    if nfiles >= 2 {
+    if nfiles >= 2 && rep.is_none() {
         chunks.insert(1 + ((salt >> 8) as usize % (nfiles - 1)), vec![]);
     }
     let mut inputs = vec![];
     for (j, ch) in chunks.iter().enumerate() {
         let path = format!("{}/in-{}-{}.csv", dir, tag, j);
-        let mut text = String::new();
+        let mut text: Vec<u8> = vec![];
         for (k, v) in ch {
-            let ks = String::from_utf8(k.clone()).unwrap();
-            if mode == "set" {
-                text.push_str(&format!("{}\n", ks));
-            } else {
-                text.push_str(&format!("{},{}\n", ks, v));
+            text.extend_from_slice(k);
+            if mode != "set" {
+                text.extend_from_slice(format!(",{}", v).as_bytes());
             }
+            text.push(b'\n');
         }
         // half of the cases: files without a final newline
-        if (salt >> 16) & 1 == 1 && text.ends_with('\n') {
+        if nonl.unwrap_or((salt >> 16) & 1 == 1) && text.ends_with(b"\n") {
             text.pop();
         }
         std::fs::write(&path, text).unwrap();
         inputs.push(path);
+    }
+    if let Some((_, n)) = rep {
+        for _ in 0..n {
+            inputs.push(inputs[0].clone());
+        }
     }
     let mut cmd = Command::new(&bin);
     cmd.arg(if mode == "set" { "set" } else { "map" });
@@ -468,6 +513,7 @@ pub fn cmd_merge(r: &mut Runner, t: &[&str]) -> String {
     for p in &inputs {
         let _ = std::fs::remove_file(p);
     }
+    let nrows_traced = rows.len();
     if !out.status.success() {
         r.check(false, || format!("C19 fst exited with {:?}: {} :: {}", out.status.code(), String::from_utf8_lossy(&out.stderr), line));
         return "merge failed".into();
@@ -485,7 +531,7 @@ pub fn cmd_merge(r: &mut Runner, t: &[&str]) -> String {
     // consecutive batches, then generations of unions that each consume every result of
     // the previous generation exactly once in groups of at most fd-limit
     if !trace.is_empty() {
-        if let Err(e) = check_trace(&trace, rows.len(), batch.parse().unwrap(), fd.parse().unwrap(), threads.parse().unwrap_or(1)) {
+        if let Err(e) = check_trace(&trace, nrows_traced, batch.parse().unwrap(), fd.parse().unwrap(), threads.parse().unwrap_or(1)) {
             r.check(false, || format!("C19 merge structure: {} :: {}", e, line));
         } else {
             r.checks += 1;
